@@ -142,15 +142,26 @@ def copiesOf (assignments : List (String × String)) : List (String × String) :
 
 def expectedCopies : List (String × String) := [("jwk", "s.jwk"), ("key", "s.key")]
 
-/-- `load`: how the active entry is chosen and the published list is built -/
+/-- `load`: how the active entry is chosen, what is checked and how the published list is built -/
 def selectionOf (assignments : List (String × String)) : List (String × String) :=
-  assignments.filter (fun a => a.1 = "kse, err" ∨ a.1 = "kse" ∨ a.1 = "keys" ∨ a.1 = "keys[idx]" ∨
-    a.1 = "range idx, entry" ∨ a.1 = "s.jwk" ∨ a.1 = "s.key" ∨ a.1 = "s.pubKeys")
+  assignments.filter (fun a => a.1 = "kse, err" ∨ a.1 = "kse" ∨ a.1 = "err" ∨ a.1 = "keys" ∨ a.1 = "keys[idx]" ∨
+    a.1 = "range idx, entry" ∨ a.1 = "range _, entry" ∨ a.1 = "s.jwk" ∨ a.1 = "s.key" ∨ a.1 = "s.pubKeys")
 
 def expectedSelection : List (String × String) :=
-  [("kse, err", "ks.Entries()[0], nil"), ("kse, err", "ks.GetKey(s.keyID)"),
+  [("kse, err", "keystore.SelectKey(ks, s.keyID)"),
+   ("range _, entry", "ks.Entries()"), ("err", "entry.CheckJOSESupport()"),
+   ("err", "pkix.ValidateCertificate(kse.CertChain[0], opts...)"),
    ("keys", "make([]jose.JSONWebKey, len(ks.Entries()))"), ("range idx, entry", "ks.Entries()"),
    ("keys[idx]", "entry.JWK()"), ("s.jwk", "kse.JWK()"), ("s.key", "kse.PrivateKey"), ("s.pubKeys", "keys")]
+
+/-- `keystore.SelectKey` is `selectEntry`: `GetKey` for a non-empty id, else an error for no entries, else the first -/
+def expectedSelectKey : List String :=
+  ["if len(id) != 0 {", "return ks.GetKey(id)", "}", "entries = ks.Entries()", "if len(entries) == 0 {",
+   "return nil, ErrNoKeys", "}", "return entries[0], nil"]
+
+/-- `Entry.CheckJOSESupport` accepts exactly the sizes the algorithm tables know (`Entry.supported`) -/
+def expectedJoseSupport : List (String × List Nat) :=
+  [("AlgRSA", rsaTable.map (·.1)), ("AlgECDSA", ecdsaTable.map (·.1))]
 
 /-! ## `Entry.JWK` and the algorithm tables -/
 
